@@ -285,7 +285,79 @@ func mutateText(t *rapid.T, text string) string {
 	return strings.Join(lines, "\n")
 }
 
+// c09Reencode: the text in another encoding or behind a magic prefix - what an editor on another platform, a download or a
+// half-finished conversion leaves in a file called .toml: byte order marks (UTF-8, UTF-16 LE/BE, UTF-32), the text as UTF-16
+// with or without its last byte, gzip / zip / ELF / shebang / NUL prefixes, CR line ends, a trailing NUL or Ctrl-Z.
+func c09Reencode(t *rapid.T, text []byte) []byte {
+	utf16 := func(le bool, bom bool) []byte {
+		var out []byte
+		if bom && le {
+			out = append(out, 0xFF, 0xFE)
+		} else if bom {
+			out = append(out, 0xFE, 0xFF)
+		}
+		for _, r := range string(text) {
+			if r > 0xffff {
+				r = '?'
+			}
+			if le {
+				out = append(out, byte(r), byte(r>>8))
+			} else {
+				out = append(out, byte(r>>8), byte(r))
+			}
+		}
+		return out
+	}
+	var out []byte
+	switch rapid.IntRange(0, 11).Draw(t, "encoding") {
+	case 0:
+		out = append([]byte{0xEF, 0xBB, 0xBF}, text...)
+	case 1:
+		out = utf16(true, true)
+	case 2:
+		out = utf16(false, true)
+	case 3:
+		out = utf16(true, false)
+	case 4:
+		out = append([]byte{0xFF, 0xFE}, text...)
+	case 5:
+		out = append([]byte{0xFE, 0xFF}, text...)
+	case 6:
+		out = append([]byte{0xFF, 0xFE, 0, 0}, text...)
+	case 7:
+		out = append(rapid.SampledFrom([][]byte{{0x1f, 0x8b, 8, 0}, []byte("PK\x03\x04"), []byte("\x7fELF"), []byte("#!/bin/sh\n"), {0}, {0, 0, 0, 0}, []byte("\xef\xbb"), []byte("+/v8-")}).Draw(t, "magic"), text...)
+	case 8:
+		out = []byte(strings.ReplaceAll(string(text), "\n", "\r\n"))
+	case 9:
+		out = []byte(strings.ReplaceAll(string(text), "\n", "\r"))
+	case 10:
+		out = append(append([]byte{}, text...), rapid.SampledFrom([]byte{0, 0x1a, 0xff}).Draw(t, "trailer"))
+	default:
+		out = append([]byte{0xEF, 0xBB, 0xBF, 0xEF, 0xBB, 0xBF}, text...)
+	}
+	// a conversion or a copy that stopped early: the last byte, or a few, are missing
+	if rapid.IntRange(0, 2).Draw(t, "cutTail") == 0 && len(out) > 0 {
+		out = out[:len(out)-rapid.IntRange(1, min(3, len(out))).Draw(t, "cut")]
+	}
+	if len(out) > 65536 {
+		out = out[:65536]
+	}
+	return out
+}
+
 func genC09(t *rapid.T) C09Case {
+	c := genC09Plain(t)
+	if rapid.IntRange(0, 7).Draw(t, "reencode") == 0 {
+		data := c.Data
+		if data == nil {
+			data = []byte(c.Text)
+		}
+		return C09Case{Data: c09Reencode(t, data)}
+	}
+	return c
+}
+
+func genC09Plain(t *rapid.T) C09Case {
 	switch k := rapid.IntRange(0, 19).Draw(t, "source"); {
 	case k == 0: // arbitrary bytes
 		return C09Case{Data: rapid.SliceOfN(rapid.Byte(), 0, 2048).Draw(t, "bytes")}
